@@ -280,7 +280,7 @@ def predicate(ck, sv, mir, case, res, enabled):
                         % (child_cls, parent_cls), expected="an exception, parent unchanged")
                 elif len(S) >= 2 and hint:
                     bad("C10:hint-names-no-candidate", "several members qualify and the hint %r names none of them: add() returns "
-                        "normally and stores nothing" % hint, expected="an exception naming the valid hints %s" % S)
+                        "normally (members changed: %s)" % (hint, r["changed"] or "none"), expected="an exception naming the valid hints %s" % S)
                 else:
                     bad("C10:no-unique-member", "add() does not raise / changes the parent "
                         "although no unique member can be determined", expected="an exception, parent unchanged")
